@@ -302,7 +302,16 @@ impl Number {
             Number::Fixnum(_) => self.clone(),
             Number::Float(num) => num.floor().into(),
             Number::BigInt(_) => self.clone(),
-            Number::Rational(num) => num.floor().into(),
+            Number::Rational(num) => {
+                // 64 bit arithmetic: Ratio::floor overflows for numerators close to i32::MIN
+                let (numer, denom) = (*num.numer() as i64, *num.denom() as i64);
+                let quotient = numer / denom;
+                if numer % denom < 0 {
+                    Number::Fixnum(quotient - 1)
+                } else {
+                    Number::Fixnum(quotient)
+                }
+            }
         }
     }
 
@@ -311,7 +320,16 @@ impl Number {
             Number::Fixnum(_) => self.clone(),
             Number::Float(num) => num.ceil().into(),
             Number::BigInt(_) => self.clone(),
-            Number::Rational(num) => num.ceil().into(),
+            Number::Rational(num) => {
+                // 64 bit arithmetic: Ratio::ceil overflows for numerators close to i32::MAX
+                let (numer, denom) = (*num.numer() as i64, *num.denom() as i64);
+                let quotient = numer / denom;
+                if numer % denom > 0 {
+                    Number::Fixnum(quotient + 1)
+                } else {
+                    Number::Fixnum(quotient)
+                }
+            }
         }
     }
 
